@@ -129,8 +129,10 @@ def py_value(rng, tag: int):
         return {"k": tag}
     if r < 0.9:
         return {"expr": str(tag)}
-    if r < 0.95:
+    if r < 0.93:
         return {"expr": "[ %d ]" % tag}
+    if r < 0.96:
+        return {"expr": "[\n  %d\n  %d\n]" % (tag, tag + 1)}  # a value that spans several lines
     return {"expr": "{ k = %d; }" % tag}
 
 
